@@ -8,6 +8,7 @@ import (
 	"strings"
 	"sync"
 	"sync/atomic"
+	"syscall"
 	"time"
 
 	"github.com/mgtv-tech/redis-GunYu/cmd"
@@ -31,10 +32,18 @@ import (
 // whole syncer; the leader/follower body itself (RunLeader/RunFollower) is not simulated.
 
 func init() {
-	Register(&PropertyDef{ID: "C15", Strata: []string{"free", "nofault", "expiry", "renewloop", "free", "renewloop_faults", "runcluster", "runcluster_faults"}, Run: runC15, StepCap: 1200})
+	Register(&PropertyDef{ID: "C15", Strata: []string{"free", "nofault", "expiry", "renewloop", "free", "renewloop_faults", "runcluster", "runcluster_faults", "twostore", "twostore_loop"}, Run: runC15, StepCap: 1200})
 }
 
 const c15StoreAddr = "10.0.9.1:6379"
+
+// c15StoreAddr2: strata twostore*: the input is a standalone configuration with TWO addresses (two independent sources
+// behind one configuration, as RedisConfig.SelNodes allows). They share no key space, so the lease is an arbiter only
+// if every instance of the group contends through the SAME one, whichever address happens to accept connections when an
+// instance starts. The second address is a healthy, empty Redis; the first one refuses new connections for drawn
+// stretches (fault store_unreachable_for_dial: a proxy restart, a full accept queue, a one-sided partition) while the
+// connections it already has keep working.
+const c15StoreAddr2 = "10.0.9.2:6379"
 
 type c15Op struct {
 	N         int
@@ -50,6 +59,7 @@ type c15Op struct {
 	Executed  bool
 	ExecNs    int64
 	ExecSeq   int
+	Store     int    // which lease store executed it (strata twostore*: 0 = first address, 1 = second)
 	ExecErr   string // error reply of the store, if any
 	Delivered bool   // the whole reply was handed to the client before the connection died
 	Reported  bool   // renew-loop strata: the leader loop's wait-closer was already closed (loss reported) when the call began
@@ -139,6 +149,14 @@ type c15Sim struct {
 	realRunCluster bool
 	keyMismatch    atomic.Bool
 	src            *simredis.Server // the source shard's master (answers runCluster's role question at once)
+	// strata twostore*
+	srv2      *simredis.Server
+	lastSnap2 c15Snap
+	refuseA   bool // the first address refuses new connections
+	execCtr   int  // global execution order over both stores
+	// contender goroutines by goroutine number: a connection belongs to the contender whose goroutine dialled it
+	gMu  sync.Mutex
+	gOwn map[int64]*c15Contender
 }
 
 // pumpSource lets the source shard answer whatever it was asked: it is healthy and no subject of this property.
@@ -156,8 +174,67 @@ func (s *c15Sim) pumpSource() {
 	}
 }
 
-func (s *c15Sim) snap() c15Snap {
-	o := s.srv.Get(0, s.key)
+// adopt: the calling goroutine is contender c's (it builds c's clients, i.e. dials c's connections).
+func (s *c15Sim) adopt(c *c15Contender) {
+	s.gMu.Lock()
+	if s.gOwn == nil {
+		s.gOwn = map[int64]*c15Contender{}
+	}
+	s.gOwn[simrt.GoID()] = c
+	s.gMu.Unlock()
+}
+
+// dialTag: the incarnation tag of the contender whose goroutine is dialling (simnet.Net.TagOf).
+func (s *c15Sim) dialTag() (int, bool) {
+	s.gMu.Lock()
+	c := s.gOwn[simrt.GoID()]
+	s.gMu.Unlock()
+	if c == nil {
+		return 0, false
+	}
+	c.mu.Lock()
+	defer c.mu.Unlock()
+	return c.tag, true
+}
+
+func (s *c15Sim) stores() []*simredis.Server {
+	if s.srv2 != nil {
+		return []*simredis.Server{s.srv, s.srv2}
+	}
+	return []*simredis.Server{s.srv}
+}
+
+func (s *c15Sim) sessions() []*simredis.Session {
+	if s.srv2 == nil {
+		return s.srv.Sessions
+	}
+	return append(append([]*simredis.Session(nil), s.srv.Sessions...), s.srv2.Sessions...)
+}
+
+func (s *c15Sim) srvOf(ss *simredis.Session) *simredis.Server {
+	if s.srv2 != nil {
+		for _, x := range s.srv2.Sessions {
+			if x == ss {
+				return s.srv2
+			}
+		}
+	}
+	return s.srv
+}
+
+// storeConfig: the Redis configuration the instance hands to NewRedisCluster (cmd/syncer.go run(): input.redis).
+func (s *c15Sim) storeConfig() config.RedisConfig {
+	rc := config.RedisConfig{Addresses: []string{c15StoreAddr}, Type: config.RedisTypeStandalone, Otype: config.RedisTypeStandalone, Version: "7.2.0"}
+	if s.srv2 != nil {
+		rc.Addresses = []string{c15StoreAddr, c15StoreAddr2}
+	}
+	return rc
+}
+
+func (s *c15Sim) snap() c15Snap { return s.snapOf(s.srv) }
+
+func (s *c15Sim) snapOf(srv *simredis.Server) c15Snap {
+	o := srv.Get(0, s.key)
 	if o == nil {
 		return c15Snap{}
 	}
@@ -265,7 +342,7 @@ func (c *c15Contender) connect(ctx context.Context) (cluster.Election, error) {
 	s := c.sim
 	op := c.begin("connect")
 	c.retire()
-	rc := config.RedisConfig{Addresses: []string{c15StoreAddr}, Type: config.RedisTypeStandalone, Otype: config.RedisTypeStandalone, Version: "7.2.0"}
+	rc := s.storeConfig()
 	cl, err := cluster.NewRedisCluster(ctx, rc, s.ttl)
 	if err != nil {
 		c.end(op, 0, "", err)
@@ -290,6 +367,7 @@ func (c *c15Contender) retire() {
 // free strata: one call per release.
 func (c *c15Contender) serve() {
 	defer c.exited.Store(true)
+	c.sim.adopt(c)
 	ctx := context.Background()
 	for what := range c.cmdCh {
 		switch what {
@@ -330,7 +408,7 @@ func (c *c15Contender) serve() {
 
 // tagDead: the contender's current connection was severed by the simulator (c.mu held).
 func (c *c15Contender) tagDead() bool {
-	for _, ss := range c.sim.srv.Sessions {
+	for _, ss := range c.sim.sessions() {
 		if ss.Conn.Tag == c.tag {
 			return ss.Dead
 		}
@@ -341,6 +419,7 @@ func (c *c15Contender) tagDead() bool {
 // renewloop strata: the instance life cycle of cmd.run()/runCluster() around the REAL clusterTicker.
 func (c *c15Contender) runLoop() {
 	defer c.exited.Store(true)
+	c.sim.adopt(c)
 	for range c.cmdCh { // each token = permission to (re)start the instance
 		c.mu.Lock()
 		c.down = false
@@ -419,7 +498,7 @@ func (c *c15Contender) clusterIncarnation() {
 	defer runWait.Close(nil)
 	op := c.begin("connect")
 	c.retire()
-	rc := config.RedisConfig{Addresses: []string{c15StoreAddr}, Type: config.RedisTypeStandalone, Otype: config.RedisTypeStandalone, Version: "7.2.0"}
+	rc := s.storeConfig()
 	cl, err := cluster.NewRedisCluster(runWait.Context(), rc, s.ttl)
 	c.end(op, 0, "", err)
 	if err != nil {
@@ -582,17 +661,33 @@ func runC15(r *Run, stratum string) *Violation {
 				Msg: fmt.Sprintf("source shard of master %s: instance 10.0.1.1:18001 (reads from %s) contends for lease %q, instance 10.0.1.%d:18001 (reads from %s) for lease %q - both leases are free for their only contender, both instances are told they are leader at the same time", shardMaster, readsFrom[0], keyOf[0], i+1, readsFrom[i], keyOf[i])}
 		}
 	}
-	s.faults = stratum == "free" || stratum == "expiry" || stratum == "renewloop_faults" || stratum == "runcluster_faults"
+	twoStore := strings.HasPrefix(stratum, "twostore")
+	s.faults = stratum == "free" || stratum == "expiry" || stratum == "renewloop_faults" || stratum == "runcluster_faults" || twoStore
 	s.realRunCluster = strings.HasPrefix(stratum, "runcluster")
-	looping := strings.HasPrefix(stratum, "renewloop") || s.realRunCluster
+	looping := strings.HasPrefix(stratum, "renewloop") || s.realRunCluster || stratum == "twostore_loop"
 	maxCalls := 8 + g.Choose("maxcalls", 53)
 	maxSteps := 120 + g.Choose("maxsteps", 500)
 
 	s.srv = simredis.NewServer(c15StoreAddr)
 	s.srv.AutoDeliver = false
 	r.Net.Listen(c15StoreAddr, s.srv)
+	r.Net.TagOf = s.dialTag
+	defer func() { r.Net.TagOf = nil }()
 	s.startNs = time.Now().UnixNano()
 	s.srv.OnExec = s.onExec
+	if twoStore {
+		s.srv2 = simredis.NewServer(c15StoreAddr2)
+		s.srv2.AutoDeliver = false
+		r.Net.Listen(c15StoreAddr2, s.srv2)
+		s.srv2.OnExec = func(e *simredis.Exec) { s.onExecAt(1, e) }
+		r.Net.DialFault = func(addr string) error {
+			if s.refuseA && addr == c15StoreAddr {
+				return syscall.ECONNREFUSED
+			}
+			return nil
+		}
+		defer func() { r.Net.DialFault = nil }()
+	}
 	if looping && !s.realRunCluster {
 		s.loop = cmd.VerifNewLoop()
 	}
@@ -691,8 +786,39 @@ func (s *c15Sim) drainEvents() {
 	}
 }
 
+func (s *c15Sim) allLog() []simredis.Exec {
+	if s.srv2 == nil {
+		return s.srv.Log
+	}
+	return append(append([]simredis.Exec(nil), s.srv.Log...), s.srv2.Log...)
+}
+
+func (s *c15Sim) ready() []*simredis.Session {
+	rd := s.srv.Ready()
+	if s.srv2 != nil {
+		rd = append(append([]*simredis.Session(nil), rd...), s.srv2.Ready()...)
+	}
+	return rd
+}
+
+func (s *c15Sim) undelivered() []*simredis.Session {
+	un := s.srv.Undelivered()
+	if s.srv2 != nil {
+		un = append(append([]*simredis.Session(nil), un...), s.srv2.Undelivered()...)
+	}
+	return un
+}
+
+// cn names a connection in action labels: connection ids are per run, the store is named where there are two.
+func (s *c15Sim) cn(ss *simredis.Session) string {
+	if s.srv2 != nil && s.srvOf(ss) == s.srv2 {
+		return fmt.Sprintf("c%d@store2", ss.Conn.ID)
+	}
+	return fmt.Sprintf("c%d", ss.Conn.ID)
+}
+
 func (s *c15Sim) checkUnsupported() {
-	for _, e := range s.srv.Log {
+	for _, e := range s.allLog() {
 		if e.IsErr && simredis.IsUnsupportedScript(e.Reply) {
 			// DESIGN §2.2: outside the mini-Lua subset there is no verdict at all -> harness error (driver exit 2)
 			panic("C15 not decidable: the lease-store double could not interpret the election script (" + e.Reply + "); mini-Lua subset exceeded — this is NOT a verdict")
@@ -701,13 +827,20 @@ func (s *c15Sim) checkUnsupported() {
 }
 
 // onExec runs on the scheduler goroutine while the store executes one request.
-func (s *c15Sim) onExec(e *simredis.Exec) {
-	after := s.snap()
-	before := s.lastSnap
+func (s *c15Sim) onExec(e *simredis.Exec) { s.onExecAt(0, e) }
+
+func (s *c15Sim) onExecAt(store int, e *simredis.Exec) {
+	last := &s.lastSnap
+	srv := s.srv
+	if store == 1 {
+		last, srv = &s.lastSnap2, s.srv2
+	}
+	after := s.snapOf(srv)
+	before := *last
 	if before.Present && before.ExpireAt > 0 && before.ExpireAt <= e.AtNs/1e6 {
 		before = c15Snap{} // expired in the meantime
 	}
-	s.lastSnap = after
+	*last = after
 	c := s.tagOwner[e.Tag]
 	if c == nil {
 		return
@@ -723,6 +856,10 @@ func (s *c15Sim) onExec(e *simredis.Exec) {
 		op.Executed = true
 		op.ExecNs = e.AtNs / 1e6 * 1e6 // store time: the store's clock ticks in milliseconds (as Redis' does)
 		op.ExecSeq = e.Seq
+		if s.srv2 != nil {
+			s.execCtr++
+			op.ExecSeq, op.Store = s.execCtr, store
+		}
 		op.Before, op.After = before, after
 		if e.IsErr {
 			op.ExecErr = e.Reply
@@ -778,34 +915,34 @@ func (s *c15Sim) actions(stratum string, looping bool, maxCalls int) []pipeActio
 		acts = append(acts, pipeAction{"call " + c.id, 8, func() { s.release(c, s.drawCall()) }})
 		acts = append(acts, pipeAction{"reconnect " + c.id, 1, func() { s.release(c, "connect") }})
 	}
-	ready := s.srv.Ready()
+	ready := s.ready()
 	for _, ss := range ready {
 		ss := ss
-		acts = append(acts, pipeAction{fmt.Sprintf("exec c%d", ss.Conn.ID), 10, func() { s.srv.Step(ss) }})
+		acts = append(acts, pipeAction{"exec " + s.cn(ss), 10, func() { s.srvOf(ss).Step(ss) }})
 	}
-	und := s.srv.Undelivered()
+	und := s.undelivered()
 	for _, ss := range und {
 		ss := ss
-		acts = append(acts, pipeAction{fmt.Sprintf("deliver c%d", ss.Conn.ID), 10, func() { s.deliver(ss) }})
+		acts = append(acts, pipeAction{"deliver " + s.cn(ss), 10, func() { s.deliver(ss) }})
 	}
 	if s.faults {
 		for _, ss := range ready {
 			ss := ss
-			acts = append(acts, pipeAction{fmt.Sprintf("fault request-lost c%d", ss.Conn.ID), 1, func() {
+			acts = append(acts, pipeAction{"fault request-lost " + s.cn(ss), 1, func() {
 				r.W.Fault("request_lost")
-				s.srv.KillSession(ss, 0)
+				s.srvOf(ss).KillSession(ss, 0)
 			}})
 		}
 		for _, ss := range und {
 			ss := ss
-			acts = append(acts, pipeAction{fmt.Sprintf("fault reply-lost c%d", ss.Conn.ID), 1, func() {
+			acts = append(acts, pipeAction{"fault reply-lost " + s.cn(ss), 1, func() {
 				r.W.Fault("reply_lost")
-				s.srv.KillSession(ss, 0)
+				s.srvOf(ss).KillSession(ss, 0)
 			}})
 		}
 		var idle []*simredis.Session
-		for _, ss := range s.srv.Sessions {
-			if !ss.Dead && !ss.Conn.ClientClosed() && len(ss.Outbox) == 0 && !s.srv.HasRequest(ss) {
+		for _, ss := range s.sessions() {
+			if !ss.Dead && !ss.Conn.ClientClosed() && len(ss.Outbox) == 0 && !s.srvOf(ss).HasRequest(ss) {
 				idle = append(idle, ss)
 			}
 		}
@@ -813,9 +950,20 @@ func (s *c15Sim) actions(stratum string, looping bool, maxCalls int) []pipeActio
 			acts = append(acts, pipeAction{"fault reset", 1, func() {
 				ss := idle[r.Sched().Choose("resetconn", len(idle))]
 				r.W.Fault("conn_reset")
-				r.Logf("  reset c%d", ss.Conn.ID)
-				s.srv.KillSession(ss, 0)
+				r.Logf("  reset %s", s.cn(ss))
+				s.srvOf(ss).KillSession(ss, 0)
 			}})
+		}
+		if s.srv2 != nil {
+			// the first address stops / resumes accepting NEW connections; the connections it has keep working
+			if !s.refuseA {
+				acts = append(acts, pipeAction{"fault first address refuses new connections", 3, func() {
+					r.W.Fault("store_unreachable_for_dial")
+					s.refuseA = true
+				}})
+			} else {
+				acts = append(acts, pipeAction{"first address accepts connections again", 3, func() { s.refuseA = false }})
+			}
 		}
 	}
 	inFlight := len(ready) > 0 || len(und) > 0
@@ -876,7 +1024,7 @@ func (s *c15Sim) deliver(ss *simredis.Session) {
 		}
 		c.mu.Unlock()
 	}
-	s.srv.DeliverOutbox(ss)
+	s.srvOf(ss).DeliverOutbox(ss)
 }
 
 // finish lets outstanding calls complete (execute + deliver everything), then stops all contenders.
@@ -886,11 +1034,11 @@ func (s *c15Sim) finish(looping bool) {
 	if !looping {
 		for i := 0; i < 200; i++ {
 			r.Settle()
-			if rd := s.srv.Ready(); len(rd) > 0 {
-				s.srv.Step(rd[0])
+			if rd := s.ready(); len(rd) > 0 {
+				s.srvOf(rd[0]).Step(rd[0])
 				continue
 			}
-			if un := s.srv.Undelivered(); len(un) > 0 {
+			if un := s.undelivered(); len(un) > 0 {
 				s.deliver(un[0])
 				continue
 			}
@@ -916,9 +1064,9 @@ func (s *c15Sim) finish(looping bool) {
 			if c.exited.Load() {
 				break
 			}
-			for _, ss := range s.srv.Sessions {
+			for _, ss := range s.sessions() {
 				if !ss.Dead && s.sessionOwner(ss) == c {
-					s.srv.KillSession(ss, 0)
+					s.srvOf(ss).KillSession(ss, 0)
 				}
 			}
 			if s.realRunCluster && i >= 20 {
@@ -936,9 +1084,9 @@ func (s *c15Sim) finish(looping bool) {
 		r.Settle()
 		s.drainEvents()
 	}
-	for _, ss := range s.srv.Sessions {
+	for _, ss := range s.sessions() {
 		if !ss.Dead {
-			s.srv.KillSession(ss, 0)
+			s.srvOf(ss).KillSession(ss, 0)
 		}
 	}
 	r.Settle()
@@ -986,6 +1134,9 @@ func (s *c15Sim) opString(o *c15Op) string {
 	default:
 		res = "ok"
 	}
+	if o.Store != 0 {
+		at += " by the second store"
+	}
 	return fmt.Sprintf("[%s.%s#%d %s %s]", who, o.Kind, o.N, at, res)
 }
 
@@ -1006,7 +1157,11 @@ func (s *c15Sim) oracle(ops []*c15Op) *Violation {
 	sort.Slice(ex, func(i, j int) bool { return ex[i].ExecSeq < ex[j].ExecSeq })
 
 	// (1) sequential lease specification applied in the store's execution order.
+	// (strata twostore*: one specification per store - each store is a correct lease arbiter for those who ask IT; that
+	// the instances of a group must not end up with different arbiters is what the interval rule (2) decides)
 	holder, expiry := -1, int64(0)
+	holders, expiries := [2]int{-1, -1}, [2]int64{}
+	curStore := 0
 	grants, denials, takeovers := 0, 0, 0
 	grantedTo := map[int]bool{}
 	hist := func(upto *c15Op) string {
@@ -1022,6 +1177,12 @@ func (s *c15Sim) oracle(ops []*c15Op) *Violation {
 	}
 	for _, o := range ex {
 		t := o.ExecNs
+		holders[curStore], expiries[curStore] = holder, expiry
+		curStore = o.Store
+		holder, expiry = holders[curStore], expiries[curStore]
+		if o.Store == 1 {
+			r.W.Probe("c15_second_store_asked")
+		}
 		live := holder >= 0 && t < expiry
 		hname := "nobody"
 		if live {
@@ -1270,6 +1431,12 @@ func (s *c15Sim) oracle(ops []*c15Op) *Violation {
 	}
 
 	// (3) porcupine on the client-visible history (invoke/return stamps only).
+	// (single-lease model: not applicable to a history in which the second store of strata twostore* was asked)
+	for _, o := range ex {
+		if o.Store != 0 {
+			return nil
+		}
+	}
 	if v := s.porcupineCheck(ex); v != nil {
 		return v
 	}
